@@ -648,7 +648,15 @@ func (fv *FuncVC) VerifyTop() {
 	fv.revealed = fv.con.Reveal
 	fv.stack = append(fv.stack, fn)
 	fv.cover("pre", "true", "precondition satisfiable", fv.pos(fn.Pos()))
+	checkReads := fv.con != nil && fv.con.Pure && len(fv.con.Reads) > 0 && !fv.con.Trusted
+	if checkReads {
+		fv.m.readLog = map[string]bool{}
+	}
 	fv.run(fr, args, free, st, "true")
+	if checkReads {
+		fv.readsObligation(fv.m.readLog)
+		fv.m.readLog = nil
+	}
 	for _, o := range fv.obls {
 		o.Probes = fv.probes
 	}
@@ -657,6 +665,42 @@ func (fv *FuncVC) VerifyTop() {
 		fv.cover("some_return", Or(fv.retReach...), "some return point reachable under the precondition and assumed contracts", fv.pos(fn.Pos()))
 	}
 	fv.finalize()
+}
+
+// readsObligation: the heap keys read while the body of a `pure` function with a `reads` clause was executed
+// symbolically (its own loads, the inlined callees', and the clauses evaluated on the way) lie within the declared
+// read set. Callers rely on the clause: an application of the function keeps its value across writes outside it.
+// What abstracted callees (havocs, contracts without reads) read is not seen - listed with the havoced calls.
+func (fv *FuncVC) readsObligation(log map[string]bool) {
+	allowed := map[string]bool{}
+	for _, r := range fv.con.Reads {
+		for _, hk := range fv.readKeys(r, pkgOf(fv.fn)) {
+			allowed[hk.Key] = true
+		}
+	}
+	var bad []string
+	for k := range log {
+		if !isModuleKey(k) || allowed[k] {
+			continue
+		}
+		// local cells and per-call temporaries are not caller-visible state
+		if strings.HasPrefix(k, "C$") {
+			continue
+		}
+		bad = append(bad, k)
+	}
+	sort.Strings(bad)
+	o := &Obligation{Name: fmt.Sprintf("%s/%s/reads", fv.prop, fv.funcName()), Kind: "frame", Func: fv.funcName(), Pos: fv.pos(fv.fn.Pos()),
+		Text: "reads clause: the heap the body reads is within the declaration", ctx: fv.ctx, Static: true}
+	if len(bad) == 0 {
+		o.Result = "unsat"
+		o.Solver = "read-set recording"
+	} else {
+		o.Result = "failed"
+		o.Solver = "read-set recording"
+		o.Model = "reads outside the declared read set: " + strings.Join(bad, ", ")
+	}
+	fv.obls = append(fv.obls, o)
 }
 
 // frameObligation: a function with a `pure` contract or an explicit `assigns` clause must not write
